@@ -241,6 +241,10 @@ word_alphabet = st.characters(
     blacklist_categories=("Cc", "Cs", "Zs", "Zl", "Zp"))
 words = st.one_of(st.sampled_from(["solo", "soloend", "ENABLE_CHART_DYNAMICS", "x", "a=b", '"q"', "*", "T", "O", "H", "N", "S", "5",
                                    "end", "forced", "tap"]),
+                  st.sampled_from(["solo", "soloend", "ENABLE_CHART_DYNAMICS", "ENHANCED_OPENS", "[ENHANCED_OPENS]", "*", "T",
+                                   "O", "H", "P", "N", "S", "E", "5", "6", "7", "end", "forced", "tap", "open", "idle",
+                                   "play", "ow_face_on", "ow_face_off", "mix_3_drums0d", "map", "HandMap_Default", "sp",
+                                   "starpower", "ghl", "disco"]),
                   st.text(alphabet=word_alphabet, min_size=1, max_size=12),
                   st.lists(st.sampled_from(UNICODE_ODDITIES + ["a", "Z", "_"]), min_size=1, max_size=3).map("".join),
                   st.lists(st.sampled_from([m for m in MARKUP_ODDITIES if " " not in m] + ["a", "x"]), min_size=1,
@@ -317,9 +321,23 @@ plain_text = st.text(alphabet=st.characters(min_codepoint=32, max_codepoint=0x2F
                                             blacklist_categories=("Cc", "Cs", "Zl", "Zp")),
                      min_size=0, max_size=16)
 
+# event names with a meaning to Clone Hero / Moonscraper / FeedBack / Rock Band conversions (candidates for
+# special treatment by a "feature"); to this library each is an opaque text
+KNOWN_GLOBAL_EVENTS = ["end", "music_start", "music_end", "coda", "idle", "play", "half_tempo", "normal_tempo",
+                       "crowd_noclap", "crowd_clap", "crowd_intense", "crowd_normal", "crowd_mellow", "crowd_realtime",
+                       "crowd_lighters_off", "crowd_lighters_slow", "crowd_lighters_fast", "band_jump",
+                       "sync_head_bang", "sync_wag", "lighting (chase)", "lighting (strobe)", "lighting ()", "verse",
+                       "chorus", "solo", "soloend", "preview", "Default", "ENABLE_CHART_DYNAMICS", "section end",
+                       "section prc_intro", "section [prc_verse_1]", "lyric +", "lyric #", "lyric ^", "lyric -",
+                       "lyric to-", "lyric =geth=", "lyric er$", "lyric §", "phrase_start", "phrase_end"]
+KNOWN_TRACK_WORDS = ["solo", "soloend", "ENABLE_CHART_DYNAMICS", "ENHANCED_OPENS", "[ENHANCED_OPENS]", "*", "T", "O", "H",
+                     "P", "N", "S", "E", "5", "6", "7", "end", "forced", "tap", "open", "idle", "play", "ow_face_on",
+                     "ow_face_off", "mix_3_drums0d", "map", "HandMap_Default", "sp", "starpower", "ghl", "disco"]
+
 global_texts = st.one_of(
     st.sampled_from(["phrase_start", "phrase_end", "section Intro", "lyric Lo-", "section Solo 1",
                      "lyric rem", "music_start", "end"]),
+    st.sampled_from(KNOWN_GLOBAL_EVENTS),
     plain_text,
     plain_text.map(lambda s: "lyric " + s),
     plain_text.map(lambda s: "section " + s),
@@ -341,6 +359,12 @@ SONG_EXTRAS = [
     ("Artist", '"Artist"'), ("Charter", '"someone"'), ("Album", '"Album"'), ("Year", '", 2018"'),
     ("Genre", st.sampled_from(['"rock"', '"metal"'])), ("MediaType", '"cd"'),
     ("MusicStream", '"song.ogg"'), ("GuitarStream", '"guitar.ogg"'), ("DrumStream", '"drums.ogg"'),
+    # fields other tools write or read (song.ini spellings included); the format documentation of this
+    # library knows none of them: they are carried by the file and mean nothing
+    ("HopoFrequency", st.sampled_from(["170", "0", "1"])), ("hopo_frequency", "170"), ("EighthNoteHopo", "1"),
+    ("FiveLaneDrums", "1"), ("SustainCutoffThreshold", st.sampled_from(["64", "1000"])), ("MultiplierNote", "116"),
+    ("EndEvents", "1"), ("Delay", st.sampled_from(["500", "-500"])), ("StarPowerNote", "103"),
+    ("ProDrums", "True"), ("Modchart", '"yes"'), ("Offset2", "3"),
 ]
 
 # ------------------------------------------------------------------------------------------------
